@@ -115,8 +115,13 @@ func (m *Model) Rearrange(perm []int) {
 			}
 		}
 	})
+	updated := make(map[*TokenSet]bool) // named sets share their sub-expressions
 	for _, set := range m.Sets {
 		set.ForEach(func(ts *TokenSet) {
+			if updated[ts] {
+				return
+			}
+			updated[ts] = true
 			if nt := ts.Symbol - terms; nt >= 0 {
 				ts.Symbol = terms + perm[nt]
 			}
